@@ -850,4 +850,32 @@ example : Pre_shapeArray [3] ∧ Pre_shapeArray [3, 1, 1] ∧ Pre_shapeArray [1,
     ¬ Pre_shapeArray [2, 2] ∧ ¬ Pre_shapeArray [1, 2, 3] := by decide
 
 
+/-- `tenfun` with a function of two arguments and none or several other operands (the surplus would be ignored), or
+a function of no / three arguments: rejected. -/
+theorem C19_rejects_tenfun_arity (nargs others : Nat) (h : ¬ Pre_tenfunArity nargs others) :
+    validate_tenfunArity nargs others = .error .reject :=
+  rejects_of_guard (validate_tenfunArity_ok_iff nargs others) h
+
+theorem C19_accepts_tenfun_arity (nargs others : Nat) (h : Pre_tenfunArity nargs others) :
+    validate_tenfunArity nargs others = .ok () := (validate_tenfunArity_ok_iff nargs others).2 h
+
+example : Pre_tenfunArity 2 1 ∧ Pre_tenfunArity 1 3 ∧ ¬ Pre_tenfunArity 2 2 ∧ ¬ Pre_tenfunArity 2 0 ∧ ¬ Pre_tenfunArity 3 1 := by
+  decide
+
+/-- `S[subs] = value` with fewer subscript columns than modes is rejected … -/
+theorem C19_rejects_set_subs_width (N width : Nat) (h : ¬ Pre_setSubsWidth N width) :
+    validate_setSubsWidth N width = .error .reject :=
+  rejects_of_guard (validate_setSubsWidth_ok_iff N width) h
+
+theorem C19_accepts_set_subs_width (N width : Nat) (h : Pre_setSubsWidth N width) :
+    validate_setSubsWidth N width = .ok () := (validate_setSubsWidth_ok_iff N width).2 h
+
+/-- … and the receiver is as it was: the width test precedes the first write. -/
+theorem C19_receiver_unchanged_set_subs_width {σ : Type} (N width : Nat) (step : σ → σ) (s : σ)
+    (h : ¬ Pre_setSubsWidth N width) : inPlace (validate_setSubsWidth N width) step s = (s, .error .reject) :=
+  inPlace_reject _ step s (C19_rejects_set_subs_width N width h)
+
+example : Pre_setSubsWidth 2 2 ∧ Pre_setSubsWidth 2 3 ∧ ¬ Pre_setSubsWidth 2 1 ∧ ¬ Pre_setSubsWidth 3 0 := by decide
+
+
 end Pyttb
